@@ -267,26 +267,42 @@ CHECKS = {
             "issubset/issuperset is modelled by the builder's union (NFA.union itself belongs to C08); the comparator can answer "
             "'out of fuel' on very large operands (reported, never silently accepted).",
             "Defect demonstrated on the unrepaired tree: a blank-only regex passes validate but from_regex raises IndexError.", "7/C11"),
-    "C15": ("Coq theorems about mirror / specification models of the DFA language constructors + differential correspondence "
+    "C15": ("Coq theorems about mirror models of the DFA language constructors (incl. the KMP failure table of from_substring and the "
+            "Aho-Corasick construction of from_substrings, written decision by decision after the code) + differential correspondence "
             "(exact tables, proved comparator, word-level predicates, executable minimality test)",
             "Proved for all alphabets, all parameters, both values of every flag, partial and complete forms, and all words over all "
             "symbols (unbounded): from_prefix, from_subsequence, of_length (with symbols_to_count), count_mod (remainder sets, "
             "symbols_to_count), nth_from_start, nth_from_end (2^n-state shift register; one-symbol alphabets delegate to of_length), "
             "universal_language, empty_language build a valid DFA accepting exactly the words over the alphabet that satisfy the "
             "declarative predicate of Spec/Preds.v (its complement within the alphabet when contains=False); refusals (k=0, n=0, symbol "
-            "outside the alphabet) as the code. from_substring / from_suffix: specification model (state = longest prefix of the pattern "
-            "that is a suffix of the text read, defined by trying lengths from long to short; the KMP table is not modelled) proved to "
-            "accept exactly 'contains the substring' / 'has the suffix', incl. the empty pattern. Model tied to the code by exact table "
-            "equality + proved comparator (all words) + validity on every pattern of length <= 4 over 1-3 symbols and all small numeric "
-            "parameters. from_substrings / from_finite_language: no Coq model - judged on every run against the Coq boolean predicates "
-            "(proved equivalent to the declarative ones) on all words up to length 6-7, an independent Python predicate, and (all words) "
-            "the obvious NFA / trie built by the harness through the proved comparators. Minimality: executable is_minimal evaluated by "
-            "the extracted code on every result whose docstring promises the minimal DFA; its soundness is proved from the Myhill-Nerode "
-            "lower bound taken as a hypothesis (C15_is_minimal_sound_partial; the lower bound itself is C05_nerode_lower_bound, so the "
-            "full statement C15_is_minimal_sound_statement closes by one application after the merge). Not proved: that the models' "
-            "own results are minimal for all parameters (C15_constructors_minimal_statement; a bounded instance is computed).",
-            "Open known finding: from_substrings with the empty string inside the pattern set and must_be_suffix=True. Fixed by the lead "
-            "(trial hunk): from_suffix / from_substring(must_be_suffix=True) with an empty pattern raised IndexError.", "7/C15"),
+            "outside the alphabet) as the code. from_substring / from_suffix: the MIRROR model of the code (KMP table with the "
+            "kmp_table[i] = kmp_table[candidate] shortcut, the candidate walk per state and symbol, limit, the walked row of the "
+            "full-match state) never raises / never runs out of fuel and returns EXACTLY the specification model (state = longest "
+            "pattern prefix that is a suffix of the text), same table row by row (C15_kmp_faithful); the table entries are the strong "
+            "failure links (C15_kmp_table_spec); the specification model accepts exactly 'contains the substring' / 'has the suffix', "
+            "incl. the empty pattern. from_substrings: the MIRROR model of the Aho-Corasick construction (trie with labels in insertion "
+            "order, breadth-first failure links, output inheritance, goto completion loop, absorbing end state, early return for the "
+            "empty pattern; the pattern set is a list = the iteration order, theorems for all lists) never fails, returns a valid DFA "
+            "and accepts exactly the words over the alphabet that end with a pattern (must_be_suffix; no hypothesis on the patterns) / "
+            "contain a pattern (patterns over the alphabet), or the complement; the language does not depend on the order; the "
+            "trie/failure phase satisfies the classical failure-link specification (C15_aho_corasick_links). Models tied to the code "
+            "by exact table equality (the Aho-Corasick model is fed the iteration order of the very set object the implementation "
+            "gets) + proved comparator (all words) + validity on every pattern of length <= 4 over 1-3 symbols, all small numeric "
+            "parameters and random pattern sets (incl. sets with the empty pattern and, in suffix mode, with symbols outside the "
+            "alphabet). from_finite_language: no Coq model - judged on every run against the Coq boolean predicates on all words up "
+            "to length 6-7, an independent Python predicate, and (all words) the trie built by the harness through the proved "
+            "comparator. Minimality: executable is_minimal evaluated by the extracted code on every result whose docstring promises "
+            "the minimal DFA; it is proved sound (C15_is_minimal_sound: minimal among complete DFAs, and among all DFAs when flagged "
+            "partial, from the Myhill-Nerode lower bound of C05) and complete; the constructor models are proved minimal for ALL "
+            "parameters (C15_constructors_minimal: universal/empty, from_subsequence, from_substring/from_suffix, from_prefix, "
+            "of_length with a non-empty range and a counted symbol, nth_from_start, nth_from_end) by explicit access and distinguishing "
+            "words. Not modelled: from_finite_language.",
+            "Open known finding (genuine defect, found while proving the Aho-Corasick language theorem): from_substrings "
+            "(must_be_suffix=False) with a pattern that contains a symbol outside the alphabet - end_state = len(transitions) collides "
+            "with the label of a visited trie node, e.g. DFA.from_substrings({'a'}, {'bb','aa'}) accepts 'a'; the faithful model "
+            "reproduces it (C15_from_substrings_foreign_symbol_refuted, same table as the code), the language theorem for that mode "
+            "carries the hypothesis 'patterns over the alphabet', generators avoid that shape. Fixed earlier: from_suffix / "
+            "from_substring(must_be_suffix=True) with an empty pattern; from_substrings with the empty string in the set.", "7/C15"),
     "C19": ("Coq theorems about mirror models of every validate() (first failing check of the code's sequence) against declarative "
             "well-formedness of raw definitions + differential correspondence (malformed stream; operation battery in four "
             "interpreter processes, one per combination of the two global flags)",
